@@ -1616,6 +1616,13 @@ class ContractionTree:
 
         # make sure all flops and size information has been populated
         tree.contract_stats()
+        # ... as well as the involved indices and legs of every intermediate,
+        # which the updates below start from: they can't be recomputed once
+        # the index is marked as sliced and the sliced leaves are reset (e.g.
+        # nodes created with a precomputed cost and size don't have them yet)
+        for node in tree.children:
+            tree.get_involved(node)
+            tree.get_legs(node)
 
         d = tree.size_dict[ind]
         if project is None:
